@@ -92,7 +92,7 @@ var roleFinders = map[string]func(fn *ssa.Function) bool{
 	"(*InjectorProviderCallStmt).buildAssignmentStatement": func(fn *ssa.Function) bool {
 		return recvIs(fn, "InjectorProviderCallStmt") && fnAllocs(fn, "AssignStmt") && strings.Contains(sig(fn), "bool") && strings.HasSuffix(sig(fn), "go/ast.Stmt")
 	},
-	"(*InjectorProviderCallStmt).buildWaitStatement":          func(fn *ssa.Function) bool { return fnAllocs(fn, "SelectStmt") },
+	"(*InjectorProviderCallStmt).buildWaitStatement": func(fn *ssa.Function) bool { return fnAllocs(fn, "SelectStmt") },
 	"(*InjectorProviderCallStmt).channelsWait": func(fn *ssa.Function) bool {
 		return recvIs(fn, "InjectorProviderCallStmt") && fnCalls(fn, "isContextType") && fnAllocs(fn, "RangeStmt")
 	},
